@@ -131,10 +131,10 @@ Section RoundTrip.
   Variable cst : Type.
   Variable cstep : cst -> bytes -> cst * bytes.
   Variable cflush : cst -> cst * bytes.
-  Variable E : cst -> bytes -> bytes.
+  Variable E : cst -> bytes -> bytes -> Prop.
   Variable wf : cst -> Prop.
   Hypothesis enc_contract : forall s0 s cin cout,
-      wf s0 -> ereach cstep s0 s cin cout -> cout ++ snd (cflush s) = E s0 cin.
+      wf s0 -> ereach cstep s0 s cin cout -> E s0 cin (cout ++ snd (cflush s)).
 
   (* decoder side (Decomp.v) *)
   Variable dst : Type.
@@ -177,7 +177,7 @@ Section RoundTrip.
   (* pairing of the two chains: the compressor applies its stages first to last, the
      coders are recorded last to first, so decoder stage j undoes encoder stage n-1-j *)
   Definition codec_inverse (s0s : list cst) (d0s : list dst) : Prop :=
-    Forall2 (fun s d => forall x, prefix x (D d (E s x))) s0s (rev d0s).
+    Forall2 (fun s d => forall x y, E s x y -> prefix x (D d y)) s0s (rev d0s).
 
   Lemma Dchain_app (a b : list dst) (x : bytes) : Dchain D (a ++ b) x = Dchain D b (Dchain D a x).
   Proof. revert x. induction a as [|d a IH]; intros x; [reflexivity|]. simpl. apply IH. Qed.
@@ -192,15 +192,17 @@ Section RoundTrip.
   Lemma D_mono_prefix (d : dst) (a b : bytes) : prefix a b -> prefix (D d a) (D d b).
   Proof. intros [c ->]. apply D_mono. Qed.
 
-  Lemma Dchain_Echain_prefix (s0s : list cst) :
-    forall (rd0s : list dst) (x : bytes),
-      Forall2 (fun s d => forall x, prefix x (D d (E s x))) s0s rd0s ->
-      prefix x (Dchain D (rev rd0s) (Echain E s0s x)).
+  Lemma Dchain_Echain_prefix (s0s : list cst) (x : bytes) (ins : list bytes) (z : bytes) :
+    Echain E s0s x ins z ->
+    forall rd0s : list dst,
+      Forall2 (fun s d => forall x y, E s x y -> prefix x (D d y)) s0s rd0s ->
+      prefix x (Dchain D (rev rd0s) z).
   Proof.
-    induction s0s as [|s s0s IH]; intros rd0s x HF; inversion HF as [|? d ? rd Hsd HF']; subst.
+    induction 1 as [x|s t x y ins z Hs Hc IH]; intros rd0s HF;
+      inversion HF as [|? d ? rd Hsd HF']; subst.
     - simpl. apply prefix_refl.
-    - cbn [rev Echain]. rewrite Dchain_app. cbn [Dchain].
-      eapply prefix_trans; [apply Hsd|]. apply D_mono_prefix.
+    - cbn [rev]. rewrite Dchain_app. cbn [Dchain].
+      eapply prefix_trans; [apply (Hsd _ _ Hs)|]. apply D_mono_prefix.
       apply IH. exact HF'.
   Qed.
 
@@ -222,8 +224,8 @@ Section RoundTrip.
     outs = map fst ms /\ map crc32 outs = map info_crc infos.
   Proof.
     intros Hwf Hci Hb Hmb Hw Hx.
-    pose proof (compress_chain cst cstep cflush E wf enc_contract s0s bsz fuel ms cs infos n Hwf Hb Hw)
-      as Hpacked.
+    destruct (compress_chain cst cstep cflush E wf enc_contract s0s bsz fuel ms cs infos n Hwf Hb Hw)
+      as (ins & Hpacked).
     destruct (sizes_and_crcs cst cstep cflush E wf enc_contract s0s bsz fuel ms cs infos n Hwf Hb Hw)
       as (Hin & Hcr & Hps & _).
     set (st0 := init_state d0s us (cpacksize cs) bsr (cout cs ++ trailer)) in *.
@@ -237,8 +239,7 @@ Section RoundTrip.
     cbn [st0 init_state stages fp_rest input_size length skipn] in Ho.
     rewrite Hps in Ho. unfold zlen in Ho. rewrite Nat2Z.id in Ho.
     rewrite firstn_app, Nat.sub_diag, firstn_all in Ho. cbn [firstn] in Ho. rewrite app_nil_r in Ho.
-    rewrite Hpacked in Ho.
-    pose proof (Dchain_Echain_prefix s0s (rev d0s) (concat (map fst ms)) Hci) as Hp.
+    pose proof (Dchain_Echain_prefix s0s (concat (map fst ms)) ins (cout cs) Hpacked (rev d0s) Hci) as Hp.
     rewrite rev_involutive in Hp. destruct Hp as [junk Hj].
     rewrite Hj, Hin in Ho.
     replace (map (fun m : bytes * list nat => zlen (fst m)) ms)
@@ -252,7 +253,7 @@ Section RoundTrip.
             (ms : list (bytes * list nat)) (cs : cstate cst) (infos : list (Z * Z * Z)) (n : Z)
             (us : list Z) (bsr : Z) (trailer : bytes) (fuelr : nat) (mb : Z)
             (scheds : list (list nat)) (ds : dstate dst) (outs : list bytes) :
-    wf s0 -> (forall x, prefix x (D d0 (E s0 x))) -> bsz <> 0 -> 0 < mb ->
+    wf s0 -> (forall x y, E s0 x y -> prefix x (D d0 y)) -> bsz <> 0 -> 0 < mb ->
     write_session cstep cflush fuel (cinit [s0] bsz) ms = Ok (cs, infos, n) ->
     extract_members dstep fuelr (init_state [d0] us (cpacksize cs) bsr (cout cs ++ trailer))
                     (map (info_in) infos) mb scheds = Ok (ds, outs) ->
@@ -464,10 +465,11 @@ Theorem toy_roundtrip_chain (s0s d0s : list toy_state) (bsz : Z) (fuel : nat)
                   (map info_in infos) mb scheds = Ok (ds, outs) ->
   outs = map fst ms /\ map crc32 outs = map info_crc infos.
 Proof.
-  intros HF. apply (roundtrip_chain toy_state toy_cstep toy_cflush toy_E (fun _ => True)
+  intros HF. apply (roundtrip_chain toy_state toy_cstep toy_cflush (fun s a b => b = toy_E s a) (fun _ => True)
                                     toy_enc_contract toy_state toy_dstep toy_D toy_D_mono toy_stage_safe).
   - apply Forall_forall. intros; exact I.
-  - unfold codec_inverse. induction HF; constructor; [apply toy_pair_inverse; assumption|assumption].
+  - unfold codec_inverse. induction HF; constructor; [|assumption].
+    intros a b ->. apply toy_pair_inverse; assumption.
 Qed.
 
 (* a concrete, non-trivial session on which every hypothesis holds and both sides return:
